@@ -500,7 +500,20 @@ class Emitter:
             if init.get('kind') == 'DeclStmt':
                 ls = self.declstmt(init, 0)
                 if len(ls) != 1:
-                    raise ExtractionError('for-init with constructor')
+                    # several declarators (or a hoisted initialiser) in the for-init: the declarations move into an
+                    # enclosing block of their own, `{ T a = ..; T b = ..; for (; c; inc) body }` (same scope, same order)
+                    if any(not l.strip().endswith(';') for l in ls):
+                        raise ExtractionError('for-init with constructor')
+                    self.fire('E16_for_init_block')
+                    cond_s = self.expr(cond, ctx) if cond.get('kind') else ''
+                    inc_s = self.expr(inc, ctx) if inc.get('kind') else ''
+                    out.append(I + '{')
+                    out.extend(I + '  ' + l.strip() for l in ls)
+                    out.append(I + '  for (; %s; %s)' % (cond_s, inc_s))
+                    out.extend(self.loop_contract(d + 1))
+                    out.extend(self.block(body, d + 1))
+                    out.append(I + '}')
+                    return out
                 init_s = ls[0].strip().rstrip(';')
             elif init.get('kind'):
                 init_s = self.expr(init, ctx)
